@@ -14,6 +14,7 @@ import (
 	"sort"
 	"strings"
 	"sync"
+	"time"
 )
 
 type witness struct {
@@ -399,6 +400,9 @@ func reach(v reflect.Value, into map[uintptr]bool) {
 func Pending() int  { return 0 }
 func RunPending()   {}
 func DropPending()  {}
+
+// RunPendingNamed: natively the goroutines run by themselves; give them a moment.
+func RunPendingNamed(name string) { time.Sleep(50 * time.Millisecond) }
 
 // Watch / Unwatch: lock-discipline instrumentation, only meaningful symbolically
 // (natively the real mutexes are used and nothing is checked here).
